@@ -194,7 +194,84 @@ class Battle(history.History):
         return None
 
 
+class Py2Text(dict):
+    """a nested value whose text (dict keys, strings) the game client, a Python 2 program, pickles as byte strings; as a Python object
+    it is the dict the summary must show (text as str)"""
+
+
+def deep_value(depth):
+    v = {'leaf': [1, 'x', {'k': 2}]}
+    for _ in range(depth):
+        v = {'next': v}
+    return Py2Text(v)
+
+
+def _has_py2(obj):
+    if isinstance(obj, Py2Text):
+        return True
+    if isinstance(obj, dict):
+        return any(_has_py2(k) or _has_py2(v) for k, v in obj.items())
+    if isinstance(obj, (list, tuple)):
+        return any(_has_py2(x) for x in obj)
+    return False
+
+
+def py2_dumps(obj):
+    """a protocol-2 pickle as Python 2 writes it: text inside a Py2Text is a byte string (SHORT_BINSTRING / BINSTRING), everything else as
+    the standard pickler does; no memo, no classes"""
+    out = [b'\x80\x02']
+
+    def put(x, py2):
+        if x is None:
+            out.append(b'N')
+        elif x is True:
+            out.append(b'\x88')
+        elif x is False:
+            out.append(b'\x89')
+        elif isinstance(x, int):
+            if -2 ** 31 <= x < 2 ** 31:
+                out.append(b'J' + struct.pack('<i', x))
+            else:
+                raw = x.to_bytes((x.bit_length() + 8) // 8, 'little', signed=True)
+                out.append(b'\x8a' + bytes([len(raw)]) + raw)
+        elif isinstance(x, float):
+            out.append(b'G' + struct.pack('>d', x))
+        elif isinstance(x, str):
+            raw = x.encode('utf-8')
+            if py2:
+                out.append((b'U' + bytes([len(raw)]) if len(raw) < 256 else b'T' + struct.pack('<i', len(raw))) + raw)
+            else:
+                out.append(b'X' + struct.pack('<I', len(raw)) + raw)
+        elif isinstance(x, bytes):
+            out.append((b'U' + bytes([len(x)]) if len(x) < 256 else b'T' + struct.pack('<i', len(x))) + x)
+        elif isinstance(x, (list, tuple)):
+            if isinstance(x, list):
+                out.append(b'](')
+                for y in x:
+                    put(y, py2)
+                out.append(b'e')
+            else:
+                out.append(b'(')
+                for y in x:
+                    put(y, py2)
+                out.append(b't')
+        elif isinstance(x, dict):
+            inner = py2 or isinstance(x, Py2Text)
+            out.append(b'}(')
+            for k, v in x.items():
+                put(k, inner)
+                put(v, inner)
+            out.append(b'u')
+        else:
+            raise TypeError(type(x))
+    put(obj, False)
+    out.append(b'.')
+    return b''.join(out)
+
+
 def blob(obj):
+    if _has_py2(obj):
+        return {'b': py2_dumps(obj).hex()}
     return {'b': pickle.dumps(obj, protocol=2).hex()}
 
 
@@ -345,6 +422,12 @@ def events(b, rng, exp, ver, players, vehicles, consts):
             return resend_roster(rng.choice(sent_rosters))
         pl = pl or rng.choice(players)
         upd = {'id': pl['id'], 'maxHealth': rng.randint(1, 99999), 'name': rng.choice(['Zed', 'Ωmega', 'Q'])}
+        # a property whose value is a nested structure (real rosters carry dicts and lists: crew parameters, dog tags, ...), at depths from
+        # flat to far deeper than anything a recording has
+        table = getattr(consts, 'id_property_map', None) or {}
+        deep_names = [nm for nm in ('dogTag', 'crewParams', 'playerMode', 'skinId', 'prebattleId') if nm in table.values()]
+        if deep_names and (force_all or rng.random() < 0.4):
+            upd[deep_names[0]] = deep_value(rng.choice([0, 1, 3, 40, 120, 150]))
         m = b.method_def('Avatar', meth)
         # the roster messages carry up to three lists (players, bots, observers), each with its own index -> name table
         kinds = {'player': [upd]}
